@@ -41,19 +41,20 @@ def normal(m):
     return m
 
 
-def variants(m, rnd, nrand):
+def variants(m, rnd, nrand, nren=1):
     """yield (action, variant molecule, {base atom number: variant atom number})"""
     from chython import smiles, MoleculeContainer
     ident = {n: n for n in m._atoms}
     # renumber
     nums = list(m._atoms)
-    new = nums[:]
-    rnd.shuffle(new)
-    mp = dict(zip(nums, [x + 1000 for x in new]))
-    v = m.copy()
-    v.remap(mp)
-    v.remap({k: k - 1000 for k in v._atoms})
-    yield 'renumber', v, {n: mp[n] - 1000 for n in nums}
+    for _ in range(nren):
+        new = nums[:]
+        rnd.shuffle(new)
+        mp = dict(zip(nums, [x + 1000 for x in new]))
+        v = m.copy()
+        v.remap(mp)
+        v.remap({k: k - 1000 for k in v._atoms})
+        yield 'renumber', v, {n: mp[n] - 1000 for n in nums}
     yield 'copy', m.copy(), ident
     # respell: the library's writers, atom maps carry the bijection
     for k in range(nrand):
@@ -142,7 +143,7 @@ def observe(case):
         f = [hidx[mp[n]] for n in m._atoms] if mp is not None and len(v) == len(m) and all(mp[n] in hidx for n in m._atoms) else list(range(1, len(v) + 1))
         out.append({'kind': kind, 'act': act, 'g': g, 'h': h, 'f': f, 'sg': sg, 'sh': str(v), 'eq': 1 if m == v else 0,
                     'heq': 1 if hash(m) == hash(v) else 0, 'smi': case['smi']})
-    for act, v, mp in variants(m, rnd, case['nrand']):
+    for act, v, mp in variants(m, rnd, case['nrand'], case.get('nren', 1)):
         rec('same', act, v, mp)
     for act, v in bumps(m, rnd):
         rec('bump', act, v, {n: n for n in m._atoms})
@@ -200,8 +201,12 @@ def run(ck):
              'C[C@H]1CC[C@@H](C)CC1', 'C1CC1', 'C12C3C1C23', 'C12C3C4C1C5C2C3C45', 'c1ccccc1', 'c1ccc2ccccc2c1', '[Na+].[Cl-]', 'CC(=O)[O-].[NH4+]', '[13CH3]C',
              'C[N+](C)(C)C', 'C[CH2]', '[O-][N+](=O)c1ccccc1', 'O=C1C=CC(=O)C=C1', 'C1CCC2(CC1)CCCCC2', 'CC(C)(C)c1ccc(O)cc1', 'FC(F)(F)C(F)(F)F',
              'C/C=C/C=C/C', 'C/C=C(/C)C(C)=O', 'CC[C@](C)(N)O', 'C[S@](=O)CC', 'c1ccc(cc1)-c1ccccc1', 'C1=CC=CC=C1', 'c1cc[nH]c1', 'c1cnc[nH]1', 'Cc1ncc[nH]1',
-             'O=c1cc[nH]cc1', 'OC1=CC=NC=C1', 'C1=CC=C1', 'C1=CC=CC=CC=C1', 'C1=CC=CC=CC=CC=CC=C1', 'C1=CC2=CC=C1C=C2', 'N1=CC=NC=C1', 'C1=CC=NC=CC=N1', 'C1CC2CCC1C2', 'C1CC2CCC1CC2', 'C[Fe]C', '[Fe+2].[O-]C=O.[O-]C=O', 'CC(C)C[C@H](N)C(=O)N[C@@H](C)C(O)=O']
-    cases = [{'key': s, 'smi': s, 'rs': rnd.randrange(1 << 30), 'nrand': 3 if ck.quick else 6} for s in sel + extra]
+             'O=c1cc[nH]cc1', 'OC1=CC=NC=C1', 'c1ccc2c(c1)c1ccccc21', 'c1ccc2c(c1)-c1ccccc1-2', 'c1ccc2c(c1)c1ccccc1c1ccccc21', 'c1ccc2cc3ccccc3cc2c1', 'c1ccc2c(c1)ccc1ccccc12', 'C1CCC2CCCCC2C1',
+             'c1ccc2c(c1)Cc1ccccc1-2', 'c1cc2ccc3cccc4ccc(c1)c2c34', 'C1C2CC3CC1CC(C2)C3', 'C12C3C4C1C5C2C3C45', 'c1ccc(cc1)-c1ccc(cc1)-c1ccccc1', 'C1CC2CCC1C2', 'C1CCC2(CC1)OCCO2',
+             'C/C(F)=C/O/C=C(\\C)F', 'C/C(F)=C/Cl.C/C(F)=C\\Cl', 'C/C(F)=C/Cl.C/C(F)=C/Cl', 'CC(C)=CCC/C(C)=C/CC/C(C)=C/CC/C=C(\\C)CC/C=C(\\C)CCC=C(C)C',
+             'C/C(N)=C/CC/C=C(/C)N', 'F/C(Cl)=C/C/C=C(/F)Cl', 'F/C(Cl)=C/C/C=C(\\F)Cl', 'O/N=C(/C)CC/C(C)=N/O', 'O/N=C(/C)CC/C(C)=N\\O', 'C1=CC=C1', 'C1=CC=CC=CC=C1', 'C1=CC=CC=CC=CC=CC=C1', 'C1=CC2=CC=C1C=C2', 'N1=CC=NC=C1', 'C1=CC=NC=CC=N1', 'C1CC2CCC1C2', 'C1CC2CCC1CC2', 'C[Fe]C', '[Fe+2].[O-]C=O.[O-]C=O', 'CC(C)C[C@H](N)C(=O)N[C@@H](C)C(O)=O']
+    cases = [{'key': s, 'smi': s, 'rs': rnd.randrange(1 << 30), 'nrand': 3 if ck.quick else 6} for s in sel] + \
+            [{'key': s, 'smi': s, 'rs': rnd.randrange(1 << 30), 'nrand': 6 if ck.quick else 20, 'nren': 10 if ck.quick else 40} for s in extra]
     cases = ck.select('actions', cases)
     if cases:
         res = vlib.pmap('checks.c01', 'observe', cases)
